@@ -182,7 +182,7 @@ func (r Registry[R, T]) makeRPC(
 			panic(err)
 		}
 
-		res := make(chan callResponse[T])
+		res := make(chan callResponse[T], 1) // Buffered so that the goroutine below can exit even if we've stopped waiting for the response
 		go func() {
 			defer responseResolver.Free(callID, context.Canceled)
 
